@@ -397,7 +397,15 @@ struct CliWorld : World {
         if (rng_failed) c.run->fault("rng.perm_fail");
         if (r.crashed) {
             c.run->probe("enc.writer_crashed");
-            if (out_exists) { Meta m; m.kind = 2; m.exact = produced; c.meta[out] = m; }
+            if (out_exists) {
+                // a writer killed after its very last byte leaves a complete, valid container behind
+                bool complete = pw_ok && container_valid(produced, pw, plain);
+                Meta m;
+                m.kind = complete ? 1 : 2;
+                m.exact = produced;
+                if (complete) { m.plain = plain; m.pw = pw; m.pwidx = op.arg(1); c.meta[in + "#last"] = m; c.meta[in + "#last"].pw = out + "\n" + pw; c.run->probe("enc.writer_crashed_after_last_byte"); }
+                c.meta[out] = m;
+            }
             return;
         }
         bool must_fail = !pw_ok || r.hard || rng_failed;
@@ -549,15 +557,18 @@ struct CliWorld : World {
         int fi = vfs_find(encname.c_str());
         auto mi = c.meta.find(encname);
         if (fi < 0 || mi == c.meta.end() || mi->second.kind != 1) return;
+        const Meta saved = mi->second;         // do_enc/do_dec below rewrite the map: keep copies, not iterators
+        const Meta saved_last = last->second;
         vfile &v = g_os->files[fi];
         Bytes orig(v.data, v.data + v.size);
-        if (orig != mi->second.exact || orig.size() > 400) return;
-        int64_t pw = mi->second.pwidx;
+        if (orig != saved.exact || orig.size() > 400) return;
+        int64_t pw = saved.pwidx;
         Rng r(op.u(2));
-        auto restore = [&]() { int i = vfs_put(encname.c_str(), orig.data(), orig.size()); (void)i; };
+        auto restore = [&]() { vfs_put(encname.c_str(), orig.data(), orig.size()); c.meta[encname] = saved; c.meta[base + "#last"] = saved_last; };
         int cur = c.run->cur_op;
         if (kind == 0) {
             for (size_t L = 0; L < orig.size(); ++L) {
+                restore();
                 vfs_put(encname.c_str(), orig.data(), L);
                 Op d("dec", {nm, pw, 3, 0, 0, 0, 0, 0, 0, 0, 0, 0, 0});
                 do_dec(c, d);
@@ -568,6 +579,7 @@ struct CliWorld : World {
             for (size_t i = 0; i < orig.size(); ++i) {
                 Bytes t = orig;
                 t[i] ^= (uint8_t)(1u << r.below(8));
+                restore();
                 vfs_put(encname.c_str(), t.data(), t.size());
                 Op d("dec", {nm, pw, 3, 0, 0, 0, 0, 0, 0, 0, 0, 0, 0});
                 do_dec(c, d);
@@ -583,7 +595,6 @@ struct CliWorld : World {
                 Op o(enc ? "enc" : "dec", {nm, pw, 3, 0, 0, sysk[kind], k, fkk[kind], 1, 0, 0, 0, 0});
                 if (enc) do_enc(c, o); else do_dec(c, o);
                 restore();
-                c.meta[encname] = mi->second;
                 if (c.run->faults[fkk[kind] == FK_ENOSPC ? "fs.enospc" : "fs.eio"] == before) break; // fewer than k such calls
             }
             c.run->probe(fmt("sweep.fail_kth_%s_%s", sysk[kind] == SYS_WRITE ? "write" : "read", enc ? "enc" : "dec"));
